@@ -23,6 +23,9 @@ pub struct RunConfig {
     /// C17 only: index of the watchdog target configuration (0..5)
     #[serde(default)]
     pub watchdog_target: u8,
+    /// difficulty assigned to the genesis block (hook H5, set before init); 0 = natural
+    #[serde(default)]
+    pub genesis_difficulty: u64,
 }
 
 #[derive(Clone, Debug, PartialEq, Eq, Serialize, Deserialize)]
